@@ -10,6 +10,8 @@ Definition rlist := list (list N * N).
 
 Inductive c17case :=
 | CRaised     (* the harness itself failed / an exception class the model does not know *)
+| CSkip       (* a SCALE case (several MiB) that is too large to be evaluated here: it is judged by the
+                 model-free oracle of harness/props/C17.py only; never used for an observation that raised *)
 | CCase (e : encoding)
         (* encode: input strings; items emitted at each step (one step per string, then completion);
            exception (NoErr = none); did on_completed arrive *)
@@ -28,7 +30,15 @@ Inductive c17case :=
      files are mostly padding. *)
 | CFileRL (e : encoding)
         (strs : list rlist) (enc_steps : list (list rlist)) (enc_err : err) (enc_completed : bool)
-        (chunks : list rlist) (dec_steps : list (list rlist)) (dec_err : err) (dec_completed : bool).
+        (chunks : list rlist) (dec_steps : list (list rlist)) (dec_err : err) (dec_completed : bool)
+  (* SCALE cases (chunks of 64 KiB ... 1 MiB, thousands of strings / chunks): the same content as CCase, written
+     flat.  text = all the strings joined, cut into strings of the lengths strlens; data = all the chunks
+     joined, cut into chunks of the lengths sizes (a rest is one more string / chunk); enc_out / dec_out = all
+     the emitted items joined, ONE item per step (also at completion), of the lengths enc_lens / dec_lens.
+     Everything run-length coded, the lists of lengths too. *)
+| CScale (e : encoding)
+        (text strlens enc_out enc_lens : rlist) (enc_err : err) (enc_completed : bool)
+        (data sizes dec_out dec_lens : rlist) (dec_err : err) (dec_completed : bool).
 
 Definition ns_eqb := list_eqb N.eqb.
 Definition steps_eqb := list_eqb (list_eqb ns_eqb).
@@ -56,9 +66,22 @@ Definition run_agrees {A} (model : list A -> list (list N) * err) (inputs : list
 
 Definition unrl (l : rlist) : list N := flat_map (fun p => concat (repeat (fst p) (N.to_nat (snd p)))) l.
 
+(* l cut into pieces of the given lengths; what is left over is one more piece *)
+Fixpoint split_by {A} (l : list A) (lens : list nat) : list (list A) :=
+  match lens with
+  | [] => match l with [] => [] | _ => [l] end
+  | n :: ns => firstn n l :: split_by (skipn n l) ns
+  end.
+Definition pieces (l lens : rlist) : list (list N) := split_by (unrl l) (map N.to_nat (unrl lens)).
+(* the emitted items: exactly the given lengths, nothing left over *)
+Definition items (out lens : rlist) : option (list (list (list N))) :=
+  let ls := map N.to_nat (unrl lens) in
+  if length (unrl out) =? fold_right Nat.add 0 ls then Some (map (fun o => [o]) (split_by (unrl out) ls)) else None.
+
 Definition c17_check (c : c17case) : bool :=
   match c with
   | CRaised => false
+  | CSkip => true
   | CCase e strs enc_steps enc_err enc_completed chunks dec_steps dec_err dec_completed =>
       agrees (encode e strs) enc_steps enc_err enc_completed
       && agrees (decode e chunks) dec_steps dec_err dec_completed
@@ -67,4 +90,11 @@ Definition c17_check (c : c17case) : bool :=
   | CFileRL e strs enc_steps enc_err enc_completed chunks dec_steps dec_err dec_completed =>
       agrees (encode e (map unrl strs)) (map (map unrl) enc_steps) enc_err enc_completed
       && agrees (decode e (map unrl chunks)) (map (map unrl) dec_steps) dec_err dec_completed
+  | CScale e text strlens enc_out enc_lens enc_err enc_completed data sizes dec_out dec_lens dec_err dec_completed =>
+      match items enc_out enc_lens, items dec_out dec_lens with
+      | Some es, Some ds =>
+          agrees (encode e (pieces text strlens)) es enc_err enc_completed
+          && agrees (decode e (pieces data sizes)) ds dec_err dec_completed
+      | _, _ => false
+      end
   end.
